@@ -28,6 +28,11 @@ type Script struct {
 	// Burst: write every step's bytes in ONE write before reading any reply
 	// (a pipelining plugin); replies are then read in order.
 	Burst bool `json:"burst,omitempty"`
+	// Helper: before anything else the plugin starts a helper process (an
+	// agent, a pinentry) that inherits its standard error, does not touch
+	// stdin or stdout, and outlives it: it exits when StopHelpers is called
+	// (or after 150 s).
+	Helper bool `json:"helper,omitempty"`
 }
 
 type StepLog struct {
@@ -143,6 +148,12 @@ func (e *Env) Starts() []Start {
 }
 
 // ClearStarts truncates starts.log.
+// StopHelpers makes every helper process started by a Helper script exit.
+func (e *Env) StopHelpers() { os.WriteFile(filepath.Join(e.Dir, "helpers.stop"), nil, 0o644) }
+
+// ResetHelpers lets helper processes started from now on live again.
+func (e *Env) ResetHelpers() { os.Remove(filepath.Join(e.Dir, "helpers.stop")) }
+
 func (e *Env) ClearStarts() { os.Remove(filepath.Join(e.Dir, "starts.log")) }
 
 // Stanza renders a protocol stanza (type, args, body) in canonical form.
